@@ -193,6 +193,13 @@ pub fn unbounded_async<T: Send>() -> (UnboundedAsyncSender<T>, UnboundedAsyncRec
 // Clone (Sync)
 impl<T: Send> Clone for Sender<T> {
   fn clone(&self) -> Self {
+    // A handle that was closed no longer counts towards its side; neither does its clone.
+    if self.closed.load(Ordering::Acquire) {
+      return Sender {
+        shared: Arc::clone(&self.shared),
+        closed: AtomicBool::new(true),
+      };
+    }
     self.shared.internal.lock().sender_count += 1;
     Sender {
       shared: Arc::clone(&self.shared),
@@ -202,6 +209,13 @@ impl<T: Send> Clone for Sender<T> {
 }
 impl<T: Send> Clone for Receiver<T> {
   fn clone(&self) -> Self {
+    // A handle that was closed no longer counts towards its side; neither does its clone.
+    if self.closed.load(Ordering::Acquire) {
+      return Receiver {
+        shared: Arc::clone(&self.shared),
+        closed: AtomicBool::new(true),
+      };
+    }
     self.shared.internal.lock().receiver_count += 1;
     Receiver {
       shared: Arc::clone(&self.shared),
@@ -213,6 +227,13 @@ impl<T: Send> Clone for Receiver<T> {
 // Clone (Async)
 impl<T: Send> Clone for AsyncSender<T> {
   fn clone(&self) -> Self {
+    // A handle that was closed no longer counts towards its side; neither does its clone.
+    if self.closed.load(Ordering::Acquire) {
+      return AsyncSender {
+        shared: Arc::clone(&self.shared),
+        closed: AtomicBool::new(true),
+      };
+    }
     self.shared.internal.lock().sender_count += 1;
     AsyncSender {
       shared: Arc::clone(&self.shared),
@@ -222,6 +243,15 @@ impl<T: Send> Clone for AsyncSender<T> {
 }
 impl<T: Send> Clone for AsyncReceiver<T> {
   fn clone(&self) -> Self {
+    // A handle that was closed no longer counts towards its side; neither does its clone.
+    if self.closed.load(Ordering::Acquire) {
+      return AsyncReceiver {
+        shared: Arc::clone(&self.shared),
+        closed: AtomicBool::new(true),
+        state: AtomicU8::new(STATE_WAITING),
+        is_registered: false,
+      };
+    }
     self.shared.internal.lock().receiver_count += 1;
     AsyncReceiver {
       shared: Arc::clone(&self.shared),
